@@ -49,7 +49,7 @@ func toJSON(m proto.Message) msgJSON {
 	if !r.IsValid() {
 		return msgJSON{TypedNil: true, Type: string(r.Descriptor().FullName())}
 	}
-	b, err := proto.MarshalOptions{Deterministic: true}.Marshal(m)
+	b, err := proto.MarshalOptions{Deterministic: true, AllowPartial: true}.Marshal(m)
 	if err != nil {
 		panic(err)
 	}
@@ -72,7 +72,7 @@ func fromJSON(j msgJSON) (proto.Message, error) {
 		return nil, err
 	}
 	m := mt.New().Interface()
-	if err := proto.Unmarshal(b, m); err != nil {
+	if err := unmarshalPartial(b, m); err != nil {
 		return nil, err
 	}
 	concretize(m.ProtoReflect())
@@ -116,6 +116,7 @@ func main() {
 	phase("logic", func() { runLogic(f, res, drv, mons) })
 	phase("unknown", func() { runUnknown(f, res, drv, mons) })
 	phase("wire", func() { runWire(f, res, drv, mons) })
+	phase("sweep", func() { runSweep(f, res, drv, mons) })
 	phase("equator", func() { runEquator(f, res, drv, mons) })
 	phase("values", func() { runValues(f, res, drv, mons) })
 	phase("pull", func() { runPull(f, res, drv, mons) })
